@@ -85,26 +85,25 @@ impl<T: ?Sized> Mutex<T> {
                     } else {
                         false
                     };
-                    // check the unpark status
-                    if cur.is_unparked() {
-                        if b_ignore {
+                    // we ignore the cancel, just to wait the actual event
+                    // never register the release action here: we keep waiting
+                    // and the lock handed over to us must not be passed on
+                    if b_ignore {
+                        if cur.is_unparked() {
                             break;
                         }
+                        continue;
+                    }
+                    // check the unpark status
+                    if cur.is_unparked() {
                         self.unlock();
                     } else {
                         // register
                         cur.set_release();
                         // re-check unpark status
                         if cur.is_unparked() && cur.take_release() {
-                            if b_ignore {
-                                break;
-                            }
                             self.unlock();
                         }
-                    }
-                    // we ignore the cancel, just to wait the actual event
-                    if b_ignore {
-                        continue;
                     }
 
                     // now we can safely go with the cancel panic
